@@ -96,6 +96,22 @@ def magicn_{L}(c: str, bol: bool, in_section: bool) -> bool:
 def replay_magicn_{L}(c, bol, in_section):
     return replay_magic_n(c, bol, in_section)
 ''')
+    for L in range(1, (1 if quick else 2) + 1):
+        body = " and ".join(f"doc[{8 + j}] in MARKUP" for j in range(L))
+        out.append(f'''
+def parsen_{L}(doc: str) -> bool:
+    """
+    pre: len(doc) == {8 + L + 9}
+    pre: pinned(doc, 0, NW_OPEN) and pinned(doc, {8 + L}, NW_CLOSE)
+    pre: {body}
+    post: _
+    """
+    return parse_text_only(doc, {L})
+
+
+def replay_parsen_{L}(doc):
+    return replay_parse_text_only(doc, {L})
+''')
     M = 1 if quick else 2
     for la in range(0, M + 1):
         for lx in range(0, M + 1):
@@ -335,6 +351,7 @@ def run(rep: C.Report) -> None:
         {
             "^quote_inert": dict(name="Ob1 nowiki_quote: no markup outside entities, decodes back to c", functions=["common.py:nowiki_quote"], bounds=f"c <= {2 if quick else 3} chars over the 15 markup characters + a, newline, ;"),
             "^cookie_|^ctxt_": dict(name="Ob2 <nowiki>c</nowiki> becomes exactly one N cookie holding c; finalize renders the quoted text", functions=["core.py:Wtp.preprocess_text", "core.py:Wtp._save_value", "core.py:Wtp._finalize_expand"], bounds=f"c of 0..{1 if quick else 3} symbolic chars; with one context char each side c <= {1 if quick else 2} (per-character behaviour: every character of the alphabet is in range at every position)"),
+            "^parsen_": dict(name="Ob8 parse('<nowiki>c</nowiki>') yields text only: c quoted exactly once", functions=["core.py:Wtp.parse", "core.py:Wtp.preprocess_text", "parser.py:magic_fn", "common.py:nowiki_quote"], bounds=f"c of 1..{1 if quick else 2} symbolic markup characters (the 15 documented ones)"),
             "^magicn_": dict(name="Ob5 parse side: an N cookie only adds its quoted text to the open node, at line start or not", functions=["parser.py:magic_fn", "parser.py:text_fn"], bounds=f"c of 0..{1 if quick else 2} symbolic chars over markup + space; beginning-of-line flag and open section symbolic"),
             "^cmt_": dict(name="Ob4 a closed comment and the line break before it vanish", functions=["core.py:Wtp.preprocess_text"], bounds=f"text before / inside / after the comment: 0..{1 if quick else 2} symbolic chars each over {{a,newline,<,-,!,>}}"),
         },
